@@ -1109,6 +1109,14 @@ package main
 //@   requires [C13] t != nil && sess != nil && msg != nil
 //@   modifies inferred
 //@   ensures [C13] answered: outTotal > old(outTotal)
+// (C04: history is read for readers only, from this topic, as seen by the requester; every message is passed on with
+// the id, content, headers and time it was stored with, under the requester's name for the topic, and the author is
+// withheld from channel readers)
+//@   assert at call GetAll [C04] readers_only: (effMode(t, asUid) & types.ModeRead) != 0
+//@   assert at call GetAll [C04] this_topic_as_seen_by_the_requester: $1 == t.name && $2 == asUid
+//@   ensures [C04] non_reader_gets_none: old((effMode(t, asUid) & types.ModeRead) == 0) ==> called("GetAll") == old(called("GetAll")) && called("queueOutBatch") == old(called("queueOutBatch"))
+//@   loop 1
+//@     iterates [C04] message_passed_on_unaltered: outgoingMessages[prev(#idx)] != nil && outgoingMessages[prev(#idx)].Data != nil && outgoingMessages[prev(#idx)].Data.SeqId == mm.SeqId && outgoingMessages[prev(#idx)].Data.Content == mm.Content && outgoingMessages[prev(#idx)].Data.Head == mm.Head && outgoingMessages[prev(#idx)].Data.Timestamp == mm.CreatedAt && outgoingMessages[prev(#idx)].Data.Topic == toriginal && (asChan ==> outgoingMessages[prev(#idx)].Data.From == "")
 //@ func (t *Topic) replyGetTags(sess *Session, asUid types.Uid, msg *ClientComMessage) (err error)
 //@   requires [C13] t != nil && sess != nil && msg != nil
 //@   modifies inferred
